@@ -4,8 +4,8 @@ Generated projects whose every checkout / build / package / fingerprint script d
 environment and arguments, tool lookup, LD_LIBRARY_PATH; in sandbox modes additionally every canary file it can see and a
 series of write attempts).  The expectation comes from the generator's own model of the documented environment rules
 (default.yaml + -D -> environment -> dependency environment -> privateEnvironment / metaEnvironment -> {checkout,build,
-package}Vars[Weak]) - NOT from Bob's API, so that a wrong computation inside Bob cannot vouch for itself; the API value
-(Step.getEnv) is compared as third party.  Values are drawn from a hostile alphabet and written through Bob's own escaping.
+package}Vars[Weak]) - NOT from Bob's API, so that a wrong computation inside Bob cannot vouch for itself.  Values are
+drawn from a hostile alphabet and written through Bob's own escaping.
 The host environment of the bob process is hostile too (BASH_ENV, ENV, exported functions, SHELLOPTS, PS4, LD_PRELOAD,
 locale and random variables); whitelisting is exercised through -e, whitelist, whitelistRemove; -E is the documented exception.
 Writes of sandboxed steps are judged on the host after the run.  The namespace-sandbox helper used is an ASan+UBSan build of
@@ -696,7 +696,7 @@ def check_project(proj, outside, m, host, mode, token, counters, viol, sigs, run
 
 
 LEVEL_TEXT = ("Exploration: every generated step reports its environment, arguments, tool lookup and (sandboxed) its view of the project; a model of the "
-              "documented environment rules written for this check decides, Bob's API is only a third witness; host-side judgement of write probes; "
+              "documented environment rules written for this check decides; host-side judgement of write probes; "
               "ASan+UBSan build of the namespace-sandbox helper for all sandboxed runs.")
 LEVEL_NOTE = "Bash only (no pwsh here); user namespaces required for the sandbox clause; Jenkins execution is out of reach."
 TECHNIQUE = "self-reporting step scripts (NUL separated env/argument dumps, canary and write probes) checked against an independent environment model; clang ASan+UBSan on src/namespace-sandbox"
